@@ -46,6 +46,11 @@ def gen_script(rnd, tier):
             bs = []
         ib[i] = bs or [0]
         L.append("iface %d %s %s %s %s" % ((i, ",".join(map(str, bs)) or "-") + members()))
+    # some interfaces are watched by a dependent that asks them about every name from inside each change notification
+    for i in range(1, n + 1):
+        if rnd.random() < 0.3:
+            L.append("q %d" % i)           # (a warm memo first)
+            L.append("watch %d" % i)
     for step in range(rnd.randint(2, 10)):
         # warm the memo of a few interfaces, re-base, then ask again
         for i in rnd.sample(range(1, n + 1), min(n, 3)):
@@ -153,6 +158,11 @@ def oracle(chk, lines, outs):
             direct[k] = dict((e.split(":")[0], int(e.split(":")[1])) for e in lst(f[3]))
             tags[k] = dict((e.split(":")[0], int(e.split(":")[1])) for e in lst(f[4]))
             invs[k] = [(int(e.split(":")[0]), e.split(":")[1] == "1") for e in lst(f[5])]
+        elif f[0] == "watch":
+            chk.count("interfaces_watched_from_inside_notifications")
+        elif f[0] == "set" and "WATCH-FAIL" in out:
+            bad.append((i, "%s: %s" % (line, out.split("WATCH-FAIL")[1].strip())))
+            ib[int(f[1])] = [int(x) for x in lst(f[2])] or [0]
         elif f[0] == "set":
             ib[int(f[1])] = [int(x) for x in lst(f[2])] or [0]
             chk.count("rebasings")
